@@ -15,6 +15,8 @@ import (
 	"strings"
 	"testing"
 
+	"pgregory.net/rapid"
+
 	"verif/harness/vr"
 )
 
@@ -337,4 +339,209 @@ func TestDeepNestingCatalogue(t *testing.T) {
 	if !t.Failed() {
 		vr.Exhaustive(fmt.Sprintf("deep-nesting catalogue (%d opening constructs x 3 depths x closed/unclosed): %d cases", len(pats), n))
 	}
+}
+
+// Operand values: the numbers of a page's content stream (positions, matrices, font sizes, leading, spacing, scaling,
+// TJ adjustments, rectangles) and of the boxes and width tables around it replaced one at a time, and two at a
+// time for the pairs that belong to one operator, by zero, negative, tiny, 2^31, 2^63-1 and numbers beyond every
+// integer type. The object-level fault catalogue never reaches these numbers (they live inside the stream data), and the
+// raw content-stream entry point stops at the fragments: what is judged here is everything the public calls build
+// on top of far-away, enormous or degenerate fragments (line and paragraph assembly, column histograms, the
+// space padding of PreserveLayout, header/footer bands, Markdown, chunking).
+var operandValues = []string{"0", "-1", "0.000001", "-0.000001", "2147483648", "-2147483649", "1000000000000", "-1000000000000",
+	"9223372036854775807", "-9223372036854775808", "99999999999999999999999", "-99999999999999999999999", "0.00000000000000000001"}
+
+const operandTemplate = "q 1 0 0 1 0 0 cm BT /F1 12 Tf 14 TL 72 700 Td (Left column first line) Tj T* (left column second line) Tj " +
+	"1 0 0 1 320 700 Tm (Right column first line) Tj 0 -14 TD (right column second) Tj 0.5 Tc 2 Tw 100 Tz 3 Ts " +
+	"[(ker) -250 (ned) 120 (text)] TJ 0 -28 Td (after) ' 1 2 (quoted) \" ET Q " +
+	"q 0.5 0 0 0.5 10 10 cm BT /F1 8 Tf 1 0 0 1 72 60 Tm (footer 1) Tj ET Q 72 500 200 100 re S 2 w 72 400 m 300 400 l S"
+
+func operandPDF(content, mediaBox, widths string) []byte {
+	font := helv
+	if widths != "" {
+		font = "<< /Type /Font /Subtype /Type1 /BaseFont /Helvetica /FirstChar 32 /LastChar 36 /Widths [" + widths + "] >>"
+	}
+	return rawPDF(map[int]string{
+		1: "<< /Type /Catalog /Pages 2 0 R >>", 2: "<< /Type /Pages /Kids [3 0 R 6 0 R] /Count 2 >>",
+		3: "<< /Type /Page /Parent 2 0 R /MediaBox [" + mediaBox + "] /Resources << /Font << /F1 4 0 R >> >> /Contents 5 0 R >>",
+		4: font, 5: stream("", content),
+		6: "<< /Type /Page /Parent 2 0 R /MediaBox [0 0 612 792] /Resources << /Font << /F1 4 0 R >> >> /Contents 7 0 R >>",
+		7: stream("", "BT /F1 12 Tf 72 700 Td (second page) Tj 1 0 0 1 72 60 Tm (footer 2) Tj ET")}, 1)
+}
+
+func isNumberToken(s string) bool {
+	if s == "" {
+		return false
+	}
+	for _, r := range s {
+		if !(r >= '0' && r <= '9' || r == '.' || r == '-') {
+			return false
+		}
+	}
+	return true
+}
+
+func TestOperandCatalogue(t *testing.T) {
+	n := runCatalogue(t, func(emit emitFn) {
+		fields := strings.Fields(operandTemplate)
+		var nums []int
+		for i, f := range fields {
+			if isNumberToken(f) {
+				nums = append(nums, i)
+			}
+		}
+		with := func(repl map[int]string) string {
+			out := append([]string{}, fields...)
+			for i, v := range repl {
+				out[i] = v
+			}
+			return strings.Join(out, " ")
+		}
+		for _, i := range nums {
+			for _, v := range operandValues {
+				i, v := i, v
+				emit("file", ".pdf", fmt.Sprintf("operand: content-stream number %d (%s before %q) := %s", i, fields[i], nextOperator(fields, i), v), func() []byte {
+					return operandPDF(with(map[int]string{i: v}), "0 0 612 792", "")
+				})
+			}
+		}
+		// two neighbouring numbers (both operands of one operator, or the last of one and the first of the next)
+		for k := 0; k+1 < len(nums); k++ {
+			if nums[k+1]-nums[k] > 2 {
+				continue
+			}
+			for _, v := range []string{"0", "-1000000000000", "1000000000000", "9223372036854775807", "0.000001"} {
+				for _, w := range []string{"0", "1000000000000", "-9223372036854775808", "0.000001"} {
+					a, b, v, w := nums[k], nums[k+1], v, w
+					emit("file", ".pdf", fmt.Sprintf("operand: content-stream numbers %d,%d := %s,%s", a, b, v, w), func() []byte {
+						return operandPDF(with(map[int]string{a: v, b: w}), "0 0 612 792", "")
+					})
+				}
+			}
+		}
+		box := []string{"0", "0", "612", "792"}
+		for i := range box {
+			for _, v := range operandValues {
+				i, v := i, v
+				emit("file", ".pdf", fmt.Sprintf("operand: /MediaBox element %d := %s", i, v), func() []byte {
+					b := append([]string{}, box...)
+					b[i] = v
+					return operandPDF(operandTemplate, strings.Join(b, " "), "")
+				})
+			}
+		}
+		for _, v := range operandValues {
+			v := v
+			emit("file", ".pdf", "operand: every /Widths element := "+v, func() []byte {
+				return operandPDF(operandTemplate, "0 0 612 792", strings.TrimSpace(strings.Repeat(v+" ", 5)))
+			})
+			emit("file", ".pdf", "operand: every coordinate of the page scaled by cm "+v, func() []byte {
+				return operandPDF(v+" 0 0 "+v+" 0 0 cm "+operandTemplate, "0 0 612 792", "")
+			})
+		}
+	})
+	if !t.Failed() {
+		vr.Exhaustive(fmt.Sprintf("operand catalogue (every number of a page's content stream, its /MediaBox and /Widths replaced by extreme values): %d cases", n))
+	}
+}
+
+func nextOperator(fields []string, i int) string {
+	for j := i + 1; j < len(fields); j++ {
+		f := fields[j]
+		if !isNumberToken(f) && !strings.HasPrefix(f, "(") && !strings.HasPrefix(f, "/") && !strings.HasPrefix(f, "[") && !strings.HasSuffix(f, ")") && !strings.HasSuffix(f, "]") {
+			return f
+		}
+	}
+	return ""
+}
+
+// HTML nesting: the tree builder of golang.org/x/net/html is quadratic in the number of open elements, and the
+// reader refuses documents that would nest too deeply before it parses them. The refusal rests on a forecast of what
+// the parser will open and close, so the inputs here are the ones a forecast gets wrong: end tags that match nothing
+// or are ignored, self-closing syntax on elements that are not void, elements that are closed by implication in
+// one context and nest in another (optgroup, rt, li/dd), formatting elements that the parser opens again in every
+// following block, content the parser ignores (inside select, frameset, a template of columns), SVG and MathML
+// content. Fixed shapes repeated 20 000 times, and generated tag soups (a unit of 1-7 tags repeated 20 000 times).
+var htmlNestingShapes = []string{
+	"<div></x>", "<ul><li></x>", "<div></p>", "<b></i>", "<div/>", "<span/>", "<custom-el/>", "<optgroup>", "<option><optgroup>", "<rt>", "<rb>", "<rtc><rp>",
+	"<span><li></span><span><dd></span>", "<span><div></span>", "<b><div></b>", "<a><div></a>", "<div><b a=#>x</div>", "<p><i a=#>x", "<td><font color=#>x</td>",
+	"<button><tt a=#>", "<big a=#><a>", "<nobr a=#><div></nobr>", "<select><div><input><span></div>", "<select><table><input><span></table>", "<select><style><input><div></style>",
+	"<frameset>", "<frameset><div>", "</div><div><frameset>", "<svg><title><div>", "<svg><foreignObject><div/>", "<svg><desc/>", "<math><mi><div>", "<math><annotation-xml><td>",
+	"<svg><tr><desc><table>", "<math><br><desc/>", "<p><math></p><ruby>", "<table><div></td>", "<table><pre></td><select>", "<table><caption><th><s>",
+	"<template><td><nav/><col>", "<template><col><math><template>", "<template></template><s a=#><dd>", "<form><div></form>", "<table><form><tr><td><span></form>",
+	"<h1><h2>", "<li><blockquote>", "<dd><dl>", "<object><div></div>", "<applet><b a=#></applet>", "<marquee><p>", "<![CDATA[><svg><![CDATA[><g>", "<svg><a><foreignObject></a><noembed>",
+	"<u><ruby><li>", "<center><font size=#>x</center>", "<table><tbody><tt a=#><caption>", "<i></blockquote></br><blockquote>", "<plaintext>", "<textarea><div>", "<xmp></div><div>",
+}
+
+func htmlNestingDoc(pre, unit string, reps int) []byte {
+	var sb strings.Builder
+	sb.WriteString(pre)
+	for i := 0; i < reps; i++ {
+		sb.WriteString(strings.ReplaceAll(unit, "#", fmt.Sprint(i)))
+	}
+	return []byte(sb.String())
+}
+
+func TestHTMLNestingCatalogue(t *testing.T) {
+	n := runCatalogue(t, func(emit emitFn) {
+		for _, u := range htmlNestingShapes {
+			for _, pre := range []string{"", "<!DOCTYPE html><body>text", "<table><tr><td>", "<svg><foreignObject>", "<select>"} {
+				u, pre := u, pre
+				emit("htmlstring", "", fmt.Sprintf("html nesting: %q, then %q x 20000", pre, u), func() []byte { return htmlNestingDoc(pre, u, 20000) })
+			}
+			u := u
+			emit("file", ".html", fmt.Sprintf("html nesting: file of %q x 20000", u), func() []byte { return htmlNestingDoc("", u, 20000) })
+		}
+	})
+	if !t.Failed() {
+		vr.Exhaustive(fmt.Sprintf("HTML nesting catalogue (%d shapes x 5 contexts + file): %d cases", len(htmlNestingShapes), n))
+	}
+}
+
+var htmlSoupNames = strings.Fields("div span p b i a font ul ol li dl dd dt table tr td th tbody caption select option optgroup input textarea button form h1 h2 " +
+	"svg math foreignObject desc title mi mtext annotation-xml g path object applet marquee template x custom-el pre blockquote nobr " +
+	"style script noscript iframe frameset body html head br hr img section nav center code em strong u s small big tt strike label fieldset details summary " +
+	"main article aside header footer address ruby rt rp rb rtc xmp listing noembed noframes col colgroup thead tfoot keygen mglyph malignmark image")
+
+func genHTMLSoup(t *rapid.T) Case {
+	tok := func(label string) string {
+		n := rapid.SampledFrom(htmlSoupNames).Draw(t, label)
+		switch rapid.IntRange(0, 11).Draw(t, label+"kind") {
+		case 0, 1, 2, 3, 4:
+			attr := ""
+			switch rapid.IntRange(0, 5).Draw(t, label+"attr") {
+			case 0:
+				attr = " a=#"
+			case 1:
+				attr = " a=1"
+			}
+			if n == "font" && rapid.Bool().Draw(t, label+"fa") {
+				attr += " size=2"
+			}
+			if n == "annotation-xml" && rapid.Bool().Draw(t, label+"enc") {
+				attr += " encoding='text/html'"
+			}
+			return "<" + n + attr + ">"
+		case 5, 6, 7:
+			return "</" + n + ">"
+		case 8:
+			return "<" + n + "/>"
+		case 9:
+			return rapid.SampledFrom([]string{"x", " ", "text", "<![CDATA[>", "]]>", "<!--", "-->", "<!-- c -->"}).Draw(t, label+"misc")
+		}
+		return "<" + n + ">"
+	}
+	var pre, unit strings.Builder
+	for i, k := 0, rapid.IntRange(0, 5).Draw(t, "nPre"); i < k; i++ {
+		pre.WriteString(tok(fmt.Sprintf("pre%d", i)))
+	}
+	for i, k := 0, rapid.IntRange(1, 7).Draw(t, "nUnit"); i < k; i++ {
+		unit.WriteString(tok(fmt.Sprintf("unit%d", i)))
+	}
+	return Case{Entry: "htmlstring", Fault: fmt.Sprintf("html soup: %q, then %q x 20000", pre.String(), unit.String()),
+		Payload: htmlNestingDoc(pre.String(), unit.String(), 20000)}
+}
+
+func TestHTMLSoup(t *testing.T) {
+	vr.Prop(t, "robust", vr.N(160, 4000), genHTMLSoup, meta, checkCase)
 }
